@@ -42,6 +42,45 @@ def is_transparent(name):
 # ('unknown', why)
 
 
+INT_BITS = {"u8": 8, "u16": 16, "u32": 32, "u64": 64, "usize": 64, "u128": 128}
+
+
+def fold(e):
+    """constant folding of unsigned integer arithmetic on literal / named-constant operands, so that
+    `x & !TAG` and `x & 0b0011_1111` (or `LIMIT - 1` and a literal) are the same expression to the rules."""
+    if e[0] == "un" and e[1] == "Not":
+        a = e[2]
+        if a[0] == "const" and a[1] in INT_BITS and isinstance(a[2], int) and not isinstance(a[2], bool):
+            v = (~a[2]) & ((1 << INT_BITS[a[1]]) - 1)
+            return ("const", a[1], v, {"ty": a[1], "val": v, "folded": True})
+    if e[0] == "bin":
+        a, b = e[2], e[3]
+        if a[0] == "const" and b[0] == "const" and a[1] in INT_BITS and isinstance(a[2], int) and isinstance(b[2], int) \
+                and not isinstance(a[2], bool) and not isinstance(b[2], bool):
+            op = e[1]
+            mask = (1 << INT_BITS[a[1]]) - 1
+            v = None
+            if op == "BitAnd":
+                v = a[2] & b[2]
+            elif op == "BitOr":
+                v = a[2] | b[2]
+            elif op == "BitXor":
+                v = a[2] ^ b[2]
+            elif op == "Shl" and b[2] < INT_BITS[a[1]]:
+                v = (a[2] << b[2]) & mask
+            elif op == "Shr":
+                v = a[2] >> b[2]
+            elif op == "Add" and a[2] + b[2] <= mask:
+                v = a[2] + b[2]
+            elif op == "Sub" and a[2] >= b[2]:
+                v = a[2] - b[2]
+            elif op == "Mul" and a[2] * b[2] <= mask:
+                v = a[2] * b[2]
+            if v is not None:
+                return ("const", a[1], v, {"ty": a[1], "val": v, "folded": True})
+    return e
+
+
 class Resolver:
     def __init__(self, fn):
         self.fn = fn
@@ -271,9 +310,9 @@ class Resolver:
         if k == "ref" or k == "rawptr":
             return simplify(("ref", self.place(rv["place"], at, depth)))
         if k == "bin":
-            return ("bin", rv["op"], self.operand(rv["a"], at, depth), self.operand(rv["b"], at, depth))
+            return fold(("bin", rv["op"], self.operand(rv["a"], at, depth), self.operand(rv["b"], at, depth)))
         if k == "un":
-            return ("un", rv["op"], self.operand(rv["a"], at, depth))
+            return fold(("un", rv["op"], self.operand(rv["a"], at, depth)))
         if k == "cast":
             pl = op_place(rv["op"])
             src_ty = self.fn.local_ty(pl["l"]) if pl is not None and is_plain_local(pl) else None
@@ -900,6 +939,11 @@ def Or(*ps):
     return lambda e: any(p(e) for p in ps)
 
 
+def Checked(*argpats):
+    """a checked integer conversion of the argument, however it is spelled: `x.try_into()` / `T::try_from(x)`"""
+    return Or(Call("try_into", *argpats), Call("try_from", *argpats))
+
+
 def Phi(*alts):
     """phi whose alternatives each match one of alts (all alts must be hit)."""
     def p(e):
@@ -1006,14 +1050,87 @@ def returns(fn):
     return [b for b in fn.live_blocks() if fn.term(b) and fn.term(b)["k"] == "return" and b in fn.reachable(0)]
 
 
+def value_sources(fn, res, d, seen=None):
+    """(block, resolved expr) of the definitions a def site `d` ultimately copies: whole-local moves /
+    copies of a local with several definitions are followed to each of those definitions, so that an
+    `Err(..)` built in one branch (or in an expanded helper) and returned through a temporary is
+    attributed to the block that built it."""
+    seen = seen if seen is not None else set()
+    if d in seen:
+        return []
+    seen.add(d)
+    b, i, kind = d
+    if kind == "assign":
+        rv = fn.blocks[b]["stmts"][i]["rv"]
+        if rv["k"] == "use":
+            pl = op_place(rv["op"])
+            if pl is not None and is_plain_local(pl) and not fn.has_partial_defs(pl["l"]) and not (fn.is_param(pl["l"]) and not fn.defs().get(pl["l"])):
+                rs = [x for x in res.reaching(pl["l"], b, i) if x != "entry"]
+                if rs:
+                    out = []
+                    for x in sorted(rs, key=str):
+                        out.extend(value_sources(fn, res, x, seen))
+                    return out
+    return [(b, res._def_expr(d, 0))]
+
+
 def return_exprs(fn, res=None):
-    """resolved expressions stored into _0 (one per whole assignment)."""
+    """resolved expressions stored into _0, one per originating definition (see value_sources)."""
     res = res or Resolver(fn)
     out = []
+    live = fn.reachable(0)
     for d in fn.defs().get(0, []):
-        if d[2] != "partial" and d[0] in fn.reachable(0):
-            out.append((d[0], res._def_expr(d, 0)))
+        if d[2] != "partial" and d[0] in live:
+            out.extend((b, e) for b, e in value_sources(fn, res, d) if b in live)
     return out
+
+
+def vec_tail_appends(fn):
+    """(block, term) of the calls that add all elements of their argument at the END of a Vec, in order:
+    `v.append(&mut w)`, `v.extend(w)`, `v.extend_from_slice(&w)` - interchangeable ways to write concatenation."""
+    out = []
+    for b, t in fn.calls():
+        n = t.get("callee") or ""
+        rn = t.get("resolved") or ""
+        if n.endswith("Vec::<T, A>::append") or n.endswith("Vec::<T, A>::extend_from_slice"):
+            out.append((b, t))
+        elif n.endswith("iter::Extend::extend") or rn.endswith("::extend"):
+            pl = op_place(t["args"][0]) if t["args"] else None
+            ty = fn.local_ty(pl["l"]) if pl is not None else ""
+            if "std::vec::Vec<" in ty and ("Extend" in n or "Extend" in rn):
+                out.append((b, t))
+    return out
+
+
+def possible_variants(fn, conds, scrut_pred, variants, block):
+    """variants V of the enum value identified by scrut_pred for which `block` can be reached: the block is
+    reachable (tag-aware) once every edge that requires another variant is removed.  Works for merged arms
+    (`A {..} | B {..} =>`), `matches!(x, A | B)` stored in a bool, `if let`, and guards alike."""
+    by_variant = {}
+    for v in variants:
+        by_variant[v] = conds.edges_where(lambda fc, v=v: ((fc[0] == "is" and fc[1] != v and fc[1] in variants) or (fc[0] == "isnot" and fc[1] == v)) and scrut_pred(fc[2]))
+    out = []
+    for v in variants:
+        if block in reachable_tagged(fn, 0, removed_edges=by_variant[v]):
+            out.append(v)
+    return out
+
+
+def is_err_value(e):
+    """does a returned expression denote a failure: `Err(..)` / `None` built here, or the error exit of `?`
+    (`FromResidual::from_residual(residual)`), or a Result adaptor over one of these"""
+    pe = peel(e)
+    if pe[0] == "agg" and pe[2] in ("Err",):
+        return True
+    if pe[0] == "call" and (pe[4] or pe[1]).endswith("FromResidual::from_residual"):
+        return True
+    return False
+
+
+def error_exits(fn, res=None):
+    """blocks whose returned value is a failure (see is_err_value)"""
+    res = res or Resolver(fn)
+    return [b for b, e in return_exprs(fn, res) if is_err_value(e)]
 
 
 def last_field(e):
@@ -1298,6 +1415,96 @@ def _locals_of(p):
     return frozenset(s)
 
 
+def reachable_tagged(fn, start, removed_edges=(), removed_blocks=(), max_states=50000):
+    """Blocks reachable from `start` when the *variant* of enum values built on the way is tracked: an
+    `Err(..)` built in one block, moved through temporaries (or returned by an expanded helper), handed to
+    `?` (Try::branch) and then switched on can only take the Break edge.  Plain reachability would also
+    follow the Continue edge - a path no execution takes - so "this edge leads only to the error exit"
+    could not be established for `foo(x)?` written as `let r = match .. { .. Err(e) }; r?`."""
+    removed_edges = set(removed_edges)
+    removed_blocks = set(removed_blocks)
+    BR = {"Ok": ("Continue", 0), "Some": ("Continue", 0), "Err": ("Break", 1), "None": ("Break", 1)}
+    seen = set()
+    out = set()
+    work = [(start, frozenset())]
+    n = 0
+    while work:
+        b, tags = work.pop()
+        if b in removed_blocks or fn.blocks[b].get("cleanup"):
+            continue
+        if (b, tags) in seen:
+            continue
+        seen.add((b, tags))
+        n += 1
+        if n > max_states:
+            return fn.reachable(start, removed_edges, removed_blocks)
+        out.add(b)
+        tg = dict(tags)
+        for st in fn.stmts(b):
+            k = st.get("k")
+            if k == "assign":
+                d = st["dst"]
+                if d.get("p"):
+                    if d["p"][0] != "deref":
+                        tg.pop(d["l"], None)
+                    continue
+                rv = st["rv"]
+                new = None
+                if rv["k"] == "agg" and rv.get("ak") == "adt" and rv.get("variant") is not None:
+                    new = ("v", rv["variant"], rv.get("vi"))
+                elif rv["k"] == "use":
+                    pl = op_place(rv["op"])
+                    if pl is not None and is_plain_local(pl) and pl["l"] in tg:
+                        new = tg[pl["l"]]
+                    elif pl is None and isinstance(rv["op"], dict) and "const" in rv["op"]:
+                        cv = rv["op"]["const"].get("val")
+                        if isinstance(cv, (bool, int)):
+                            new = ("d", int(cv))          # a scalar constant: a later switch on it takes one edge only
+                elif rv["k"] == "un" and rv.get("op") == "Not":
+                    pl = op_place(rv["a"])
+                    if pl is not None and is_plain_local(pl) and pl["l"] in tg and tg[pl["l"]][0] == "d" and tg[pl["l"]][1] in (0, 1) and fn.local_ty(pl["l"]) == "bool":
+                        new = ("d", 1 - tg[pl["l"]][1])
+                elif rv["k"] == "discr":
+                    pl = rv["place"]
+                    if is_plain_local(pl) and pl["l"] in tg and tg[pl["l"]][0] == "v" and tg[pl["l"]][2] is not None:
+                        new = ("d", tg[pl["l"]][2])
+                if new is None:
+                    tg.pop(d["l"], None)
+                else:
+                    tg[d["l"]] = new
+            elif k == "setdiscr":
+                tg.pop(st["dst"]["l"], None)
+            elif k == "dead":
+                tg.pop(st.get("l"), None)
+        t = fn.term(b)
+        succs = None
+        if t["k"] == "call":
+            d = t["dst"]
+            new = None
+            nm = t.get("callee") or ""
+            if nm.endswith("Try::branch") and t["args"]:
+                pl = op_place(t["args"][0])
+                if pl is not None and is_plain_local(pl) and pl["l"] in tg and tg[pl["l"]][0] == "v" and tg[pl["l"]][1] in BR:
+                    new = ("v",) + BR[tg[pl["l"]][1]]
+            if not d.get("p"):
+                if new is None:
+                    tg.pop(d["l"], None)
+                else:
+                    tg[d["l"]] = new
+        elif t["k"] == "switch":
+            pl = op_place(t["discr"])
+            if pl is not None and is_plain_local(pl) and pl["l"] in tg and tg[pl["l"]][0] == "d":
+                val = tg[pl["l"]][1]
+                hit = [tb for v, tb in t["targets"] if v == val]
+                succs = hit[:1] if hit else [t["otherwise"]]
+        nt = frozenset(tg.items())
+        for s_ in (succs if succs is not None else fn.succs(b)):
+            if (b, s_) in removed_edges:
+                continue
+            work.append((s_, nt))
+    return out
+
+
 def reachable_feasible(fn, start, removed_edges=(), removed_blocks=(), max_states=200000):
     """Blocks reachable from `start` along paths on which no switch scrutinee is required to take
     two different values (a match on (a, b) re-tests the same scrutinee in several blocks; the
@@ -1378,15 +1585,18 @@ def region_paths(fn, conds, res, start, stop_blocks, cap=5000):
     rets = set(returns(fn))
 
     class P(tuple):
-        """(facts, events, end_block) with .blocks = the blocks walked"""
+        """(facts, events, end_block) with .blocks = the blocks walked and .fact_pos[i] = index (into
+        .blocks) of the block whose outgoing edge carries facts[i]"""
         blocks = ()
+        fact_pos = ()
 
-    def emit(facts, ev, end, blocks):
+    def emit(facts, ev, end, blocks, pos):
         p = P((facts, ev, end))
         p.blocks = tuple(blocks)
+        p.fact_pos = tuple(pos)
         out.append(p)
 
-    def dfs(b, facts, events, seen, blocks):
+    def dfs(b, facts, events, seen, blocks, pos):
         if len(out) >= cap:
             raise AnchorLimit("too many paths in region")
         t = fn.term(b)
@@ -1394,23 +1604,52 @@ def region_paths(fn, conds, res, start, stop_blocks, cap=5000):
         if t["k"] in ("call",):
             ev = events + [(b, res.call_expr(t, b))]
         if b in rets:
-            emit(facts, ev, b, blocks)
+            emit(facts, ev, b, blocks, pos)
             return
         nxt = fn.succs(b)
         if not nxt:
-            emit(facts, ev, b, blocks)
+            emit(facts, ev, b, blocks, pos)
             return
         for s in nxt:
-            f2 = facts + conds.edge_facts(b, s)
+            ef = conds.edge_facts(b, s)
+            f2 = facts + ef
+            p2 = pos + [len(blocks) - 1] * len(ef)
             if s in stop_blocks:
-                emit(f2, ev, s, blocks)
+                emit(f2, ev, s, blocks, p2)
             elif s in seen:
                 continue
             else:
-                dfs(s, f2, ev, seen | {s}, blocks + [s])
+                dfs(s, f2, ev, seen | {s}, blocks + [s], p2)
 
-    dfs(start, [], [], {start}, [start])
+    dfs(start, [], [], {start}, [start], [])
     return out
+
+
+def path_local_value(fn, res, blocks, upto, l, env):
+    """value of the scalar local `l` at the end of blocks[upto] on one concrete path: the last whole
+    assignment to it along blocks[0..upto], evaluated over env (a `let flag = matches!(..)` / `a || b`
+    computed before the `if flag` that tests it).  raises Unevaluable."""
+    for bi in range(upto, -1, -1):
+        b = blocks[bi]
+        stmts = fn.blocks[b].get("stmts", [])
+        for i in range(len(stmts) - 1, -1, -1):
+            st = stmts[i]
+            if st.get("k") == "assign" and st["dst"].get("l") == l and not st["dst"].get("p"):
+                rv = st["rv"]
+                if rv["k"] == "use":
+                    pl = op_place(rv["op"])
+                    if pl is not None and is_plain_local(pl) and not fn.is_param(pl["l"]):
+                        # a copy of another scalar local: follow it on the same path
+                        return path_local_value(fn, res, blocks[:bi + 1] if i == 0 else blocks, bi, pl["l"], env) if pl["l"] != l else _unev("self copy")
+                return ev(res.rvalue(rv, (b, i)), env)
+        t = fn.blocks[b].get("term")
+        if bi < upto and t and t["k"] == "call" and t["dst"].get("l") == l and not t["dst"].get("p"):
+            return ev(res.call_expr(t, b), env)
+    raise Unevaluable("local %d has no definition on this path" % l)
+
+
+def _unev(why):
+    raise Unevaluable(why)
 
 
 class AnchorLimit(Exception):
